@@ -77,6 +77,12 @@ class DataIndexView(BaseDataIndex):
         def _node_factory(_, key, children, *args) -> Optional[_FilterNode]:
             return _FilterNode(key, children, *args)
 
+        if prefix and ensure_loaded:
+            # NOTE: prefix might be inside of a dir that is not loaded yet
+            item = self._index.longest_prefix(prefix)
+            if item:
+                self._index._load(*item)
+
         kwargs = {"prefix": prefix} if prefix is not None else {}
         stack = deque([self.traverse(_node_factory, **kwargs)])
         while stack:
